@@ -324,7 +324,7 @@ def generate(run, rng):
             tag = None
             if rng.random() < 0.4:
                 # destination pre-exists and is longer than what will be written
-                junk = bytes(rng.randrange(256) for _ in range(44 + 2 * (n + 20) * width))
+                junk = rng.randbytes(44 + 2 * (n + 20) * width)
                 run.do({"op": "env.put", "a": [path, {"$b": junk.hex()}]})
                 tag = "E-overwrite"
             run.do({"op": "wav.save", "recv": h, "a": [path], "tag": tag,
